@@ -10,6 +10,7 @@
 //!                       4 unsubscribe().send(), 5 MqttSink::ready(), 6 QoS0 send_at_most_once (id ignored),
 //!                       7 stream_at_least_once(size); id 0 = automatic packet id, else `.packet_id(id)`;
 //!                       = call the API and poll the returned future once. A task number already in use: no-op.
+//!   16,t,kind,id[,size] create task t: call the API, do NOT poll the returned future (`1` = `16` then `2,t`)
 //!   2,t                 poll task t once
 //!   3,t                 drop task t's (pending) future
 //!   4,k,id              peer sends one ack: k 1 PUBACK, 2 PUBREC, 3 PUBCOMP, 4 SUBACK, 5 UNSUBACK
@@ -161,12 +162,18 @@ macro_rules! api {
                         Started::Fut(Box::pin(async move { Out::Status(status(b.send().await)) }))
                     }
                     5 => {
-                        // `ready()` borrows the sink (edition 2024 capture rules): call it at the first
-                        // poll, which happens in the same operation
-                        let sink = sink.clone();
+                        // `ready()` does its check in the call. Its return type captures the lifetime of
+                        // `&self` (edition 2024 rules) although the future owns everything it uses: keep a
+                        // clone of the sink alive next to the future and extend the borrow to it.
+                        let keep = Box::new(sink.clone());
+                        let ptr: *const $v::MqttSink = &*keep;
+                        // SAFETY: `keep` is heap allocated, never moved out of the box, and is dropped
+                        // after the future (moved into the async block below, declared before `keep`)
+                        let f = unsafe { &*ptr }.ready();
                         Started::Fut(Box::pin(async move {
-                            let f = sink.ready();
-                            Out::Status(if f.await { 2 } else { 3 })
+                            let r = f.await;
+                            drop(keep);
+                            Out::Status(if r { 2 } else { 3 })
                         }))
                     }
                     6 => Started::Sync(status(publish().send_at_most_once(Bytes::from_static(b"x")))),
@@ -387,7 +394,8 @@ async fn drive<A: Api>(api: A, peer: IoTest, v5: bool, c: &Fields) -> Fields {
     let arg = |op: &Vec<u64>, i: usize| op.get(i).copied().unwrap_or(0);
     for op in &c[1..] {
         match op.first().copied().unwrap_or(0) {
-            1 => {
+            o @ (1 | 16) => {
+                let first_poll = o == 1;
                 let (t, kind, id, size) = (arg(op, 1), arg(op, 2), arg(op, 3), arg(op, 4));
                 if (1..=7).contains(&kind) && !tasks.contains_key(&t) {
                     let mut task = Task { kind, ..Task::default() };
@@ -397,13 +405,17 @@ async fn drive<A: Api>(api: A, peer: IoTest, v5: bool, c: &Fields) -> Fields {
                         Some(Started::Fut(f)) => {
                             task.status = 1;
                             task.fut = Some(f);
-                            task.poll_main();
+                            if first_poll {
+                                task.poll_main();
+                            }
                         }
                         Some(Started::Stream(f, s)) => {
                             task.status = 1;
                             task.fut = Some(f);
                             task.stream = Some(s);
-                            task.poll_main();
+                            if first_poll {
+                                task.poll_main();
+                            }
                         }
                     }
                     tasks.insert(t, task);
